@@ -10,8 +10,9 @@ specification is materialised as raw bytes (every field at bound, bound+1, max; 
 invalid namespaces; from >= to; huge reservations; random bytes) under every injected fault; a last
 phase repeats, over two real libp2p hosts on loopback TCP with the bridge's resource-manager limits,
 what a mock network cannot show (a requester that goes silent, a reservation the real resource manager
-refuses); after
-each hostile request a normal one must still be served; accessor open/close and memory
+refuses); requests also overlap in time (a slow requester's handler is held at its first write while
+another request is served; and, network-free, response readers are prepared A, B and then A is read);
+after each hostile request a normal one must still be served; accessor open/close and memory
 reserve/release are balanced per run; every handler run's call sequence is validated by TLC against
 the specification (ShrexTrace.tla).
 """
@@ -47,7 +48,7 @@ META = {
 def run(ctx):
     quick = ctx.quick
     ctx.assume("the stored squares are honest (produced by rsmt2d from seeded shares); ideal status of the store")
-    ctx.assume("small scope: squares of width 1,2,4 swept exhaustively; one request in flight at a time")
+    ctx.assume("small scope: squares of width 1,2,4 swept exhaustively; at most two requests in flight at a time (staged overlap, one scheduler thread)")
 
     r = ctx.tlc("shrex/MCShrexServer.tla", "shrex/MCShrex.cfg", workers=4, timeout=600, coverage=not quick)
     cases = r.printed.get("CASE", [])
@@ -77,7 +78,7 @@ def run(ctx):
     cnt = rep.get("counters", {})
     summ = rep.get("summary", {})
     ctx.cover(evaluations=cnt.get("runs", 0))
-    need = {"runs_sweep": 400, "runs_lattice": 500, "runs_garbage": 100, "replies_verified": 300, "client_gets_verified": 30,
+    need = {"aliasing_pairs": 500, "overlapping_requests": 100, "runs_sweep": 400, "runs_lattice": 500, "runs_garbage": 100, "replies_verified": 300, "client_gets_verified": 30,
             "probes_ok": 300, "wire_OK": 300, "wire_NOT_FOUND": 50, "wire_INTERNAL": 50, "wire_none": 100,
             "runs_fault_openpanic": 10, "runs_fault_buildpanic": 10, "runs_fault_reserve": 10, "runs_fault_ratelimit": 10,
             "runs_fault_copyerr": 10, "runs_fault_statuswrite": 10, "runs_fault_sizeerr": 10, "runs_fault_openerr": 10,
